@@ -941,3 +941,72 @@ def check_alias_edited_in_place(ctx, fi, rule='R-ALIAS/edited-through-alias'):
                    f'line {later.lineno} and no longer holds what it was '
                    'computed to hold')
     return n
+
+
+def check_merge_default_overwrites(ctx, fi,
+                                   rule='R-COVER/merge-keeps-earlier'):
+    """a table that is put together over several rounds of an outer loop
+    (one round per file, per worker, per chunk) keeps what earlier rounds
+    stored: a round stores entries only for the keys *it* has.  `T[k] =
+    this.get(k, default)` with k ranging over something wider than `this`
+    stores the default for every key this round knows nothing about, and
+    thereby wipes what an earlier round found for it."""
+    n = 0
+    for outer in ast.walk(fi.node):
+        if not isinstance(outer, ast.For):
+            continue
+        for inner in ast.walk(outer):
+            if not isinstance(inner, ast.For) or inner is outer:
+                continue
+            tvars = {x.id for x in ast.walk(inner.target)
+                     if isinstance(x, ast.Name)}
+            for st in ast.walk(inner):
+                if not (isinstance(st, ast.Assign) and len(st.targets) == 1
+                        and isinstance(st.targets[0], ast.Subscript)
+                        and isinstance(st.targets[0].value, ast.Name)):
+                    continue
+                table = st.targets[0].value.id
+                # the table lives across the rounds of the outer loop
+                if any(isinstance(x, ast.Assign) and any(
+                        isinstance(t, ast.Name) and t.id == table
+                        for t in x.targets) for x in ast.walk(outer)):
+                    continue
+                v = st.value
+                if not (isinstance(v, ast.Call) and isinstance(
+                        v.func, ast.Attribute) and v.func.attr == 'get'
+                        and len(v.args) == 2 and isinstance(
+                            v.func.value, ast.Name)):
+                    continue
+                src = v.func.value.id
+                # src is a product of this round
+                if not any(isinstance(x, ast.Assign) and any(
+                        isinstance(t, ast.Name) and t.id == src
+                        for t in x.targets) for x in ast.walk(outer)):
+                    continue
+                # the key is computed from the inner loop variable
+                knames = {x.id for x in ast.walk(st.targets[0].slice)
+                          if isinstance(x, ast.Name)}
+                derived = set(tvars)
+                for x in ast.walk(inner):
+                    if isinstance(x, ast.Assign) and isinstance(
+                            x.targets[0], ast.Name) and any(
+                                isinstance(y, ast.Name) and y.id in derived
+                                for y in ast.walk(x.value)):
+                        derived.add(x.targets[0].id)
+                if not (knames & derived):
+                    continue
+                it_names = {x.id for x in ast.walk(inner.iter)
+                            if isinstance(x, ast.Name)}
+                n += 1
+                ok = src in it_names
+                ctx.touch(fi)
+                ctx.ob(rule, f'{fi.qual}:{table}[{unparse(st.targets[0].slice)[:20]}]',
+                       fi.loc(st), ok,
+                       'the keys stored are keys of this round' if ok else
+                       f'`{unparse(st)[:60]}` runs for every element of '
+                       f'`{unparse(inner.iter)[:40]}`, not for the keys of '
+                       f'`{src}`: for a key this round does not have it '
+                       f'stores the default over what an earlier round of '
+                       f'`for {unparse(outer.target)[:20]} in ...` stored '
+                       f'in `{table}`')
+    return n
